@@ -122,7 +122,8 @@ fn uper(api: &Api, input: &str, out: &mut Out) {
             }
         }
         // ---- C02: the reader must decode the canonical encoding (independent of what the writer did)
-        if exp_ok && !incons && !matches!(wr_unrep, true) {
+        // (also for the patterns the writer refuses: they are valid encodings a peer may send - C03 "absent components decode as absent")
+        if exp_ok && !matches!(wr_unrep, true) {
             let (eb, el) = image(&c["bits"]);
             if let Some(p) = read_with_sentinel(api, ti, v, &eb, el) {
                 problems.push(("read-reference".into(), format!("reference bits: {}", p)));
@@ -159,6 +160,13 @@ pub fn hex(b: &[u8]) -> String {
 
 /// Appends the sentinel bits 1 0 1 1 after `len` bits, reads the value and then the sentinel.
 fn read_with_sentinel(api: &Api, ti: usize, v: &Value, bytes: &[u8], len: usize) -> Option<String> {
+    // the message followed by more data in the same stream, and the message as the very last thing of the input
+    read_followed_by(api, ti, v, bytes, len, &[true, false, true, true]).or_else(|| {
+        read_followed_by(api, ti, v, bytes, len, &[]).map(|p| format!("message at the very end of the input (declared length = message length): {}", p))
+    })
+}
+
+fn read_followed_by(api: &Api, ti: usize, v: &Value, bytes: &[u8], len: usize, sentinel: &[bool]) -> Option<String> {
     let mut s = Sink { bytes: bytes.to_vec(), len };
     // clear padding bits, then append
     if len % 8 != 0 {
@@ -166,8 +174,8 @@ fn read_with_sentinel(api: &Api, ti: usize, v: &Value, bytes: &[u8], len: usize)
         s.bytes[last] &= 0xFFu8 << (8 - len % 8);
     }
     s.bytes.truncate((len + 7) / 8);
-    for b in [true, false, true, true] {
-        s.push(b);
+    for b in sentinel {
+        s.push(*b);
     }
     let total = s.len;
     let r = guarded(|| {
@@ -181,7 +189,7 @@ fn read_with_sentinel(api: &Api, ti: usize, v: &Value, bytes: &[u8], len: usize)
         Ok((Ok(x), rem)) => {
             if x != *v {
                 Some(format!("decoded a different value: {}", x))
-            } else if rem != 4 {
+            } else if rem != sentinel.len() {
                 Some(format!("reader consumed {} bits instead of {}", total - rem, len))
             } else {
                 None
@@ -190,9 +198,6 @@ fn read_with_sentinel(api: &Api, ti: usize, v: &Value, bytes: &[u8], len: usize)
     }
 }
 
-/// C01, histories: several values written back-to-back into ONE writer and read back in order from ONE reader.
-/// The stream must be the concatenation of the single reference encodings, the i-th read must return the i-th value
-/// and the reader must end with zero bits remaining.
 fn stream(api: &Api, input: &str, out: &mut Out) {
     let cases: Vec<Value> = read_lines(input)
         .map(|(_, c)| c)
